@@ -11,7 +11,8 @@ row by `decide +kernel`.  T-diff stream `needs`: random multi-key requests throu
 import os
 
 TIE_PARTS = ["IstioModel.C01.GenTie" + x for x in ("T1", "T2", "T3", "T4", "T5", "T6", "T7", "P1", "P2", "P3", "P4", "P5", "P6", "S")]
-THEOREMS = TIE_PARTS + ["IstioModel.C01.GenTie"]
+THEOREMS = TIE_PARTS + ["IstioModel.C01.GenTie", "IstioModel.C01.Theorems", "IstioModel.C01.ProtocolTheorems",
+                        "IstioModel.C01.Instantiation"]
 GENERATED = "IstioModel/Generated/C01Table.lean"
 
 
@@ -159,7 +160,7 @@ def converge_fingerprint(case, verdict):
     return "converge:%s:%s%s" % (clause, "+".join(sorted(kinds)) or "-", changed)
 
 
-def converge_minimise(ctx, case, verdict, budget=14):
+def converge_minimise(ctx, case, verdict, budget=10):
     """Greedy shrinking of a failing history: drop steps, then base objects, while the same clause still fails."""
     clause = verdict.split()[1]
 
@@ -236,13 +237,12 @@ def run_converge(ctx, n):
             if tok.startswith("skipped="):
                 skipped += int(tok[8:])
         if v.startswith("FAIL"):
-            st["agree"] = False
             ctx.log("converge case %d: %s" % (i, v[:400]))
             fp = converge_fingerprint(c, v)
             small, small_v = c, v
             if not any(k.get("status") == "known" and k.get("fingerprint") == fp for k in ctx.known):
-                # confirm that the difference is deterministic before it becomes a verdict: a difference that does not
-                # show again in two more runs of the same history is logged and counted, not reported (the check must
+                # confirm that the difference is deterministic before it becomes a verdict: it must show again in BOTH of
+                # two more runs of the same history; otherwise it is logged and counted, not reported (the check must
                 # never be flaky; see notes/C01.md "unreproduced differences")
                 again = 0
                 for _ in range(2):
@@ -250,14 +250,20 @@ def run_converge(ctx, n):
                     if rv and rv[0].startswith("FAIL " + v.split()[1]):
                         again += 1
                         v = rv[0]
+                    else:
+                        again = 0
                         break
                 if again == 0:
                     ctx.count("converge.unreproduced-differences")
                     ctx.extra.setdefault("unreproduced_differences", []).append({"ops": c, "verdict": v[:1500]})
-                    ctx.log("converge case %d: the difference did not show again in 2 more runs - not reported" % i)
+                    ctx.log("converge case %d: the difference did not show again in both of 2 more runs - not reported" % i)
                     continue
-                small, small_v = converge_minimise(ctx, c, v)
+                if not any(x["fingerprint"].startswith("converge:") for x in ctx.violations):
+                    small, small_v = converge_minimise(ctx, c, v)  # shrink the first one only (each run costs seconds)
+                else:
+                    small, small_v = c, v
                 fp = converge_fingerprint(small, small_v)
+            st["agree"] = False
             ctx.violation(fp, "after the history quiesced a long-lived client holds resources that differ from a fresh generation: "
                           + small_v.split(" ||")[0][:300],
                           {"stream": "converge", "ops": small, "oracle_verdict": small_v[:6000], "original_case": c,
@@ -297,6 +303,14 @@ def run(ctx):
                        "computeProxyState, pushConnection, watchedResourcesByOrder, push queue counters)")
     if not ctx.go_build():
         return
+    # other checks run in the same tree and may clean harness/bin while this one is running: rebuild a vanished binary
+    raw_harness = ctx.harness
+
+    def harness(*a, **k):
+        if not os.path.exists(getattr(ctx, "bin_path", "")):
+            ctx.go_build()
+        return raw_harness(*a, **k)
+    ctx.harness = harness
     if not gen_table(ctx):
         return
     proved = ctx.lean_prove(THEOREMS)
@@ -338,8 +352,25 @@ def replay(ctx, path):
 
 
 MANIFEST = {
-    "level_text": "in progress",
-    "level_note": "in progress",
-    "technique": "Lean 4 theorems over an exact model of the push-decision logic + exhaustive generated decision table + differential correspondence",
+    "level_text": ("Lean 4 proof in two layers. (a) The push-decision logic (DefaultProxyNeedsPush/filterRelevantUpdates/"
+                   "proxyDependentOnConfig, SidecarScope.DependsOnConfig, the per-type skip tables and cds/eds/lds/rds/nds/ecds/sds/"
+                   "pcdsNeedsPush, canSendPartialFullPushes, waypointNeedsPush, computeProxyState, pushConnection, PushOrder) is modelled "
+                   "branch for branch; theorems give closed forms for all key sets, independence of Go's map order (needsPush_perm family), "
+                   "monotonicity incl. merged requests (needsPush_mono family) and skip_sound_table: wherever the real code skips, the "
+                   "hand-written dependency relation Affects is false. The model equals the real functions on the whole single-key domain "
+                   "(386k evaluations regenerated from /repo on every run, decide +kernel). (b) convergence: over an abstract generator, for "
+                   "every finite history and every batching/interleaving of change/flush/dequeue/pushDone, every quiescent state has every "
+                   "client holding gen(finalWorld) provided skips are sound for gen (SkipOK / Frame); skip_preserves; convergence_model "
+                   "instantiates the decision with the modelled one and reduces the hypothesis to single-key table rows. The frame "
+                   "hypothesis for the REAL generators is validated, not proved: long-lived clients vs fresh clients and a cold-started "
+                   "second FakeDiscoveryServer after random histories over every config kind of the quantifier."),
+    "level_note": ("Partial: the generators, the partial PushContext rebuild and the xDS cache are not modelled (covered only by the converge "
+                   "differential: 40 histories quick / 1500 thorough, sidecar and router proxies, CDS/EDS/LDS/RDS/NDS, SotW); waypoint/"
+                   "ztunnel only at the decision level. Trusted: Lean kernel + {propext, Quot.sound}; the hand-written model (tied by the "
+                   "exhaustive table and the needs stream); Spec.Affects (written from the generators); pilot/pkg/xds/zz_verif_c01.go; "
+                   "feature flags at defaults. Two defects found and fixed in /repo (3f2fe0c, 7cce3d7), one known finding "
+                   "(stale SAN after the last endpoint of a shard disappears)."),
+    "technique": ("Lean 4 theorems over an exact model of the push-decision logic and an abstract convergence protocol + exhaustive "
+                  "generated decision table (decide +kernel) + differential correspondence + cold-start differential on real servers"),
     "design_ref": "DESIGN.md section 5 C01",
 }
